@@ -42,7 +42,8 @@ Inductive step :=
 | SAddl (n : Z) | SReml (n : Z) | SRaise (n : Z) | SLower (n : Z) | SDup (n : Z) | SClearl (n : Z) | STogvis (n : Z)
 | SMovel (x y : Z) | SLsize (n w h : Z)
 | SSel (x1 y1 x2 y2 t : Z) | SClrsel | SDesel | SErase
-| SFlipx | SFlipy | SJleft | SJright | SCenter
+| SFlipx | SFlipy | SJleft | SJright | SCenter | STransp
+| SCenterLine | SJLineLeft | SJLineRight | SEraseRow | SEraseRowS | SEraseRowE | SEraseCol | SEraseColS | SEraseColE
 | SCaret (x y : Z) | SCur (n : Z) | SMirror (b : Z).
 
 Definition ftab_of (tbl : list Z) (page : N) : option (N -> N) :=
@@ -73,6 +74,16 @@ Definition run_step (fx fy : list Z) (s : step) (e : E) : res E :=
   | SJleft => api_justify_left e
   | SJright => api_justify_right e
   | SCenter => api_center e
+  | STransp => api_make_layer_transparent e
+  | SCenterLine => api_center_line e
+  | SJLineLeft => api_justify_line_left e
+  | SJLineRight => api_justify_line_right e
+  | SEraseRow => api_erase_row e
+  | SEraseRowS => api_erase_row_to_start e
+  | SEraseRowE => api_erase_row_to_end e
+  | SEraseCol => api_erase_column e
+  | SEraseColS => api_erase_column_to_start e
+  | SEraseColE => api_erase_column_to_end e
   | SCaret x y => ctl_caret x y e
   | SCur n => ctl_cur (Z.to_nat n) e
   | SMirror b => ctl_mirror (negb (b =? 0)) e
